@@ -82,6 +82,7 @@ func lexInputs(c *Ctx, f func(src string, format int, noShow bool)) {
 			f(a+b+"{{ x }}", 5, false)
 		}
 	}
+	commentInputs(c, maxLen-1, func(src string, format int) { f(src, format, false) })
 	corpus := templateCorpus()
 	for i := 0; i < c.N; i++ {
 		fm := c.Rng.Intn(6)
@@ -117,7 +118,11 @@ func init() {
 			c.Count("cases")
 		})
 	}
-	Register("C04-cases", lexCases)
+	// C04: the template lexer and the program lexer (scanProgram)
+	Register("C04-cases", func(c *Ctx) {
+		lexCases(c)
+		progCases(c, false)
+	})
 	// C21: the token stream, and the positions of the tokens that the model does
 	// not flag against the independent linecol (evaluated inside the model on the
 	// model's tokens, which the first line shows to be the implementation's)
@@ -130,6 +135,7 @@ func init() {
 			}
 			c.Count("cases")
 		})
+		progCases(c, true)
 	})
 	Register("lex-cases", lexCases)
 
